@@ -49,7 +49,7 @@ func main() {
 	if *tier == "thorough" {
 		n = 8000
 	}
-	g := &audgen.Gen{R: rng, Modalities: cmd.VerifModalities(), PErrExpr: 0.06, PErrOther: 0.15, MaxMembers: 3, WithCollect: false, SimpleExpect: 0.4, ConstConds: true, LateStamps: true, ExpectViaComputed: true}
+	g := &audgen.Gen{R: rng, Modalities: cmd.VerifModalities(), PErrExpr: 0.06, PErrOther: 0.15, MaxMembers: 3, WithCollect: false, SimpleExpect: 0.4, ConstConds: true, LateStamps: true, ExpectViaComputed: true, SharedConds: true, ClosingError: true}
 	var predItems []string
 	var items []string
 	var cases []caseJSON
